@@ -152,8 +152,13 @@ func (fr *Frame) call(in ssa.Instruction, c *ssa.CallCommon, st *State, g string
 		fr.assumeWF(res, st, g)
 		return res
 	}
-	fc.warn("call to %s without contract at %s: havoc everything", key, fc.eng.pos(pos))
-	fc.assumes["unspecified external call "+key+" (havoc)"] = true
+	if strings.HasSuffix(key, ".init") && len(c.Args) == 0 {
+		// initializer of an imported package, called at the start of a package initializer: havoc everything, one summary line
+		fc.assumes["package initializers of dependencies: unknown effects (everything havocked)"] = true
+	} else {
+		fc.warn("call to %s without contract at %s: havoc everything", key, fc.eng.pos(pos))
+		fc.assumes["unspecified external call "+key+" (havoc)"] = true
+	}
 	fc.noteWriteAll()
 	fc.havocComps(st, nil, true)
 	res := fr.resultSVs(sig, fr.prefix+"x", st, g)
@@ -164,6 +169,9 @@ func (fr *Frame) call(in ssa.Instruction, c *ssa.CallCommon, st *State, g string
 func (fc *FnCtx) canInline(fr *Frame, callee *ssa.Function, spec *FuncSpec) bool {
 	if spec != nil && spec.Inline {
 		return fr.depth < 8
+	}
+	if callee.Synthetic == "package initializer" {
+		return false // another package's initializer (called from a package initializer under contract): summarised, never inlined
 	}
 	if fr.depth >= 4 {
 		return false
